@@ -43,6 +43,10 @@
 //     of its body between the effects "for:<name>" and "end:<name>" (`continue` jumps to
 //     the end marker); with "exit" / "exitRet" / "sets" a loop whose exact text is pinned
 //     by "contains" is cut out as one effect that may return;
+//   - "closure": the translated body is that of a function literal inside a statement of the
+//     function (the task handed to loop.Run, an onClose function, a Once.Do);
+//   - "typeCases": `switch v := x.(type)` becomes an if-chain over Bool parameters "x has
+//     this dynamic type", in source order;
 //   - "loop": true (effect mode): the body of the function is one `for { … }` loop; ONE
 //     iteration is translated to `List Eff × Option R` — `some r` = the iteration returns
 //     r, `none` = it goes round again (`continue` / falls off the body).
@@ -138,6 +142,13 @@ type FuncSpec struct {
 	Binds       []BindSpec    `json:"binds"`
 	EffectStmts []StmtEffSpec `json:"effectStmts"`
 	Loop        bool          `json:"loop"`
+	// Closure: translate, instead of the function's body, the body of the first function
+	// literal inside the first statement (at any depth) whose printed text starts with this
+	// prefix (the task handed to loop.Run, the onClose function of the task loop, a Once.Do)
+	Closure string `json:"closure"`
+	// TypeCases: `switch v := x.(type)`: type text of a case (e.g. "*net.UDPAddr") -> Lean
+	// Bool parameter "x has this dynamic type"; cases are tried in source order
+	TypeCases map[string]string `json:"typeCases"`
 	// Site: translate only the body of the n-th (0-based) statement matching the prefix
 	Note string `json:"note"`
 }
@@ -362,7 +373,12 @@ func (t *tr) expr(e ast.Expr) string {
 				return "(!" + t.expr(xs) + ".isEmpty)"
 			}
 		}
-		l, r := t.expr(x.X), t.expr(x.Y)
+		l := t.expr(x.X)
+		r := ""
+		if x.Op != token.SHL && x.Op != token.SHR {
+			// (the count of a shift is a constant and may be untyped)
+			r = t.expr(x.Y)
+		}
 		switch x.Op {
 		case token.AND_NOT:
 			return "(" + l + " &&& (~~~" + r + "))"
@@ -598,6 +614,9 @@ func (t *tr) block(list []ast.Stmt, k func() string) string {
 							failf("effectStmts %q: %s does not occur in the statement", es.Prefix, v.Go)
 						}
 						t.locals[obj] = v.Lean
+						if v.Nil {
+							t.nilVar[obj] = true
+						}
 					}
 					rest := next()
 					t.locals, t.nilVar = sl, sn
@@ -878,6 +897,43 @@ func (t *tr) block(list []ast.Stmt, k func() string) string {
 			return "(if " + strings.Join(conds, " || ") + " then " + body + " else " + build(i+1) + ")"
 		}
 		return build(0)
+	case *ast.TypeSwitchStmt:
+		if x.Init != nil {
+			failf("type switch with init")
+		}
+		var deflt *ast.CaseClause
+		var clauses []*ast.CaseClause
+		for _, cl := range x.Body.List {
+			cc := cl.(*ast.CaseClause)
+			if cc.List == nil {
+				deflt = cc
+			} else {
+				clauses = append(clauses, cc)
+			}
+		}
+		var build func(i int) string
+		build = func(i int) string {
+			if i == len(clauses) {
+				if deflt != nil {
+					return t.block(deflt.Body, next)
+				}
+				return next()
+			}
+			cc := clauses[i]
+			conds := []string{}
+			for _, ty := range cc.List {
+				p, ok := t.spec.TypeCases[t.text(ty)]
+				if !ok {
+					failf("type switch: no typeCases entry for %s", t.text(ty))
+				}
+				conds = append(conds, p)
+			}
+			sl, sn := t.snapshot()
+			body := t.block(cc.Body, next)
+			t.locals, t.nilVar = sl, sn
+			return "(if " + strings.Join(conds, " || ") + " then " + body + " else " + build(i+1) + ")"
+		}
+		return build(0)
 	case *ast.RangeStmt:
 		// the search loop `for _, v := range xs { if c { return r } }`
 		vid, _ := x.Value.(*ast.Ident)
@@ -1004,6 +1060,29 @@ func findFunc(pkgs []*packages.Package, spec *FuncSpec) (*packages.Package, *ast
 	return nil, nil
 }
 
+// findClosure returns the body of the first function literal inside the first statement of fd
+// (at any depth) whose printed text starts with prefix.
+func findClosure(t *tr, fd *ast.FuncDecl, prefix string) *ast.BlockStmt {
+	var body *ast.BlockStmt
+	ast.Inspect(fd.Body, func(n ast.Node) bool {
+		if body != nil {
+			return false
+		}
+		st, ok := n.(ast.Stmt)
+		if !ok || !strings.HasPrefix(t.text(st), prefix) {
+			return true
+		}
+		ast.Inspect(st, func(m ast.Node) bool {
+			if fl, ok := m.(*ast.FuncLit); ok && body == nil {
+				body = fl.Body
+			}
+			return body == nil
+		})
+		return false
+	})
+	return body
+}
+
 type siteInfo struct {
 	Lean   string `json:"lean"`
 	Go     string `json:"go"`
@@ -1117,7 +1196,7 @@ func main() {
 			for _, a := range fs.Assigns {
 				t.assigns[a] = true
 			}
-			t.effRes = fs.Effects && (fs.Loop || (l.fd.Type.Results != nil && len(l.fd.Type.Results.List) >= 1))
+			t.effRes = fs.Effects && (fs.Loop || (fs.Closure == "" && l.fd.Type.Results != nil && len(l.fd.Type.Results.List) >= 1))
 			var body string
 			func() {
 				defer func() {
@@ -1129,7 +1208,15 @@ func main() {
 						panic(r)
 					}
 				}()
-				body = t.block(l.fd.Body.List, func() string {
+				stmts := l.fd.Body.List
+				if fs.Closure != "" {
+					cb := findClosure(t, l.fd, fs.Closure)
+					if cb == nil {
+						failf("closure: no function literal in a statement starting with %q", fs.Closure)
+					}
+					stmts = cb.List
+				}
+				body = t.block(stmts, func() string {
 					if t.loop {
 						failf("loop mode: the body is not one `for { … }` loop")
 					}
